@@ -231,6 +231,14 @@ def run_impl(case):
     scores_all = np.concatenate([g, f])[case["order"]] if len(case["order"]) else np.array([], dtype=float)
     labels = np.array(case["labels"], dtype=int)
     fl_out = {"raised": None}
+    # history: the same label array was split by another genuine label just before (result discarded)
+    try:
+        import warnings as _w
+        with _w.catch_warnings():
+            _w.simplefilter("ignore")
+            FraudScores.from_labels(labels, scores_all, genuine_label=case["gl"] + 1)
+    except ValueError:
+        pass
     try:
         fs3 = FraudScores.from_labels(labels, scores_all, genuine_label=case["gl"], nb_easy_genuines=case["eg"],
                                       nb_easy_frauds=case["ef"], score_class=sc_arg)
